@@ -5,7 +5,7 @@ Import ListNotations.
 Local Open Scope string_scope.
 
 (* a call site is fine when the combinator is registered with exactly that many arguments; the one tolerated
-   exception is `code_match` while it is not registered at all (known finding F13, see C09_match_unexpandable) *)
+   exception is `code_match` while it is not registered at all (known finding F27, see C09_match_unexpandable) *)
 Definition site_agrees (c : string * nat) : bool :=
   site_ok c ||
   (String.eqb (fst c) "code_match" &&
